@@ -14,16 +14,15 @@ namespace DarkluaModel.C10
 def worker_refines_fresh_full : Prop :=
   ∀ (P : Params) (init : Fs) (cfg : Cfg) (h : List Op), WF P init → Refines P init cfg h
 
-/-- It is false of the code as it is. Six independent counterexamples (`Witness.lean`), each
+/-- It is false of the code as it is. Independent counterexamples (`Witness.lean`), each
 evaluated in the model by the kernel:
-F10 (panic), F11 (stale output of a removed source), F11b (fresh output deleted after
+F10 (panic), F11b (fresh output deleted after
 remove + re-create), F12 (failed require not retried), F13 (filter-only configuration
 change), E/F25 (stale output of a source that now fails). -/
 theorem worker_refines_fresh_full_false : ¬ worker_refines_fresh_full := by
   intro h
   exact witness_F10_not_refines (h wP wInit 0 hF10 wWF)
 
-theorem full_false_F11 : ¬ Refines wP wInit 0 hF11 := witness_F11_not_refines
 theorem full_false_F11b : ¬ Refines wP wInit 0 hF11b := witness_F11b_not_refines
 theorem full_false_F12 : ¬ Refines wP wInit12 0 hF12 := witness_F12_not_refines
 theorem full_false_F13 : ¬ Refines wP wInit 0 hF13 := witness_F13_not_refines
@@ -35,7 +34,7 @@ example : WF wP wInit ∧ WF wP wInit12 := ⟨wWF, wWF12⟩
 /-- **Partial theorem, proved for every well-formed project and every history inside `H10`**
 (`H10 = sessionRegion … = none`: the decidable monitor `regionOf` never fires — i.e. the
 history never (F10) removes a directory holding an item with external dependencies or a
-depended-upon file, (F11) runs `process` with queued deletions and nothing pending,
+depended-upon file,
 (F11b) re-creates a removed source before its deletion ran, (F12) creates a file that changes
 the result of a finished item, (F13) changes the configuration without changing its hash,
 (E) lets an item fail over an existing output, (X) leaves the watcher protocol):
@@ -75,6 +74,11 @@ file and a directory removal, additions, a configuration change, intermediate pa
 inside `H10`, so the theorem applies to it -/
 example : Refines wP wInit 0 hGood :=
   worker_refines_fresh_partial wP wInit 0 hGood wWF hGood_inside
+
+/-- regression (F11, fixed in /repo): `removeFile a` followed by the closing `process`, with
+nothing else pending, now deletes `out/a` — the former counterexample refines the fresh run -/
+example : Refines wP wInit 0 hF11 :=
+  worker_refines_fresh_partial wP wInit 0 hF11 wWF hF11_inside
 
 /-- `no_loop`: `process` terminates on EVERY state — with one unit of fuel the work loop never
 reports `hang`; the progress argument is `passNodes_doneCount`: a pass finishes every
